@@ -255,6 +255,16 @@ func (p *Prog) MustFunc(pkg, recv, name string) *ssa.Function {
 	return f
 }
 
+// Worker: the function that does the work of the named method: the method itself, or, when the exported method is a
+// shell that only forwards its receiver and parameters, the library function it forwards to.
+func (p *Prog) Worker(pkg, recv, name string) *ssa.Function {
+	f := p.MustFunc(pkg, recv, name)
+	if w := forwardedTo(f); w != f && p.InLibrary(w) {
+		return w
+	}
+	return f
+}
+
 type unresolved struct{ what string }
 
 // NamedType returns the named type pkg.name.
